@@ -250,6 +250,7 @@ class StubDB:
         self.next_calls = 0
         self.issued = []
         self.fail_next = 0
+        self.fail_targets = 0
         self.faults = 0
         self.version_tables = ({}, {}, {}, {})
 
@@ -257,7 +258,7 @@ class StubDB:
         import dawgie.context  # pylint: disable=import-outside-toplevel
 
         m = types.ModuleType('dawgie.db.verifstub')
-        m.targets = lambda: list(self.target_list)
+        m.targets = self._targets
         m.next = self._next
         m.versions = lambda: self.version_tables
         m.open = lambda: None
@@ -273,6 +274,13 @@ class StubDB:
         if name not in self.target_list:
             self.target_list.append(name)
         return True
+
+    def _targets(self):
+        if self.fail_targets:
+            self.fail_targets -= 1
+            self.faults += 1
+            raise InjectedFault('database unavailable (injected)')
+        return list(self.target_list)
 
     def _next(self):
         if self.fail_next:
